@@ -280,6 +280,60 @@ def tie_queries(rng, case, part, count=3):
         Y = conj([falf(k) for k in s2] + [Not(falf(k)) for k in s1 if k not in s2][:1])
         A = And(falf(up), Or(X, Y)) if rng.random() < 0.7 else And(byk[up][1], Or(X, Y))
         out.append((X if rng.random() < 0.7 else Not(Y), A))
+    return out + world_queries(rng, case, part, count + 3)
+
+
+def minterm(w):
+    cur = V(0) if w[0] else Not(V(0))
+    for i in range(1, len(w)):
+        cur = And(cur, V(i) if w[i] else Not(V(i)))
+    return cur
+
+
+def world_queries(rng, case, part, count=3):
+    """Queries read off the worlds: two to six worlds that falsify the same non-empty set of conditionals in the upper
+    layers (and whatever they falsify below); the antecedent is the disjunction of their minterms, the consequent the
+    disjunction of some of them. Decided deep in the recursion of System W / lexicographic inference, with conditionals of upper
+    layers fixed as falsified, whatever the order in which the base lists its conditionals."""
+    import itertools as _it
+    n = case["n"]
+    if n > 6 or not case["base"]:
+        return []
+    byk = {k: (b, a) for (k, b, a) in case["base"]}
+    fin = part[:-1] if case["weakly"] else part
+    inf = part[-1] if case["weakly"] else []
+    if len(fin) < 2:
+        return []
+    from common import ev
+    prof = {}
+    for w in _it.product([False, True], repeat=n):
+        fs = {k for k, (b, a) in byk.items() if ev(a, w) and not ev(b, w)}
+        if fs & set(inf):
+            continue
+        prof[w] = fs
+    def disj(ws):
+        cur = minterm(ws[0])
+        for w in ws[1:]:
+            cur = Or(cur, minterm(w))
+        return cur
+
+    out = []
+    for _ in range(count * 4):
+        if len(out) >= count:
+            break
+        j = rng.randrange(1, len(fin))
+        upper = {k for l in fin[j:] for k in l}
+        groups = {}
+        for w, fs in prof.items():
+            if fs & upper:
+                groups.setdefault(frozenset(fs & upper), []).append(w)
+        cands = [g for g in groups.values() if len(g) >= 2]
+        if not cands:
+            continue
+        g = rng.choice(cands)
+        sel = rng.sample(g, rng.randrange(2, min(6, len(g)) + 1))
+        nb = rng.randrange(1, len(sel))
+        out.append((disj(sel[:nb]), disj(sel)))
     return out
 
 
